@@ -12,14 +12,14 @@ ROOT=$(cd "$(dirname "$0")/.." && pwd)
 SEED=$(readlink -f "$1"); shift
 S=${SEED_SCRATCH:-/tmp/seedv-$(basename "$SEED")-$$}
 mkdir -p "$S"
-rsync -a --delete --exclude target --exclude '.verif-*' /repo/ "$S/"
+rsync -a --delete --exclude 'target*' --exclude '.verif-*' /repo/ "$S/"
 trap 'rm -rf "$S"' EXIT
 cd "$S"
 echo "== demo without the patch"
 if bash "$SEED/demo.sh" >"$S/.demo0.log" 2>&1; then echo "demo(unpatched)=pass"; else echo "demo(unpatched)=FAIL (unexpected)"; tail -5 "$S/.demo0.log"; fi
 if ! git apply "$SEED/patch.diff"; then echo "patch does not apply"; exit 2; fi
 echo "== suite with the patch"
-if cargo test --workspace --no-fail-fast --offline >"$S/.suite.log" 2>&1; then echo "suite(patched)=green"; else echo "suite(patched)=RED"; grep -E "FAILED|failed|panicked" "$S/.suite.log" | head -5; fi
+if timeout 900 cargo test --workspace --no-fail-fast --offline >"$S/.suite.log" 2>&1; then echo "suite(patched)=green"; else echo "suite(patched)=RED"; grep -E "FAILED|failed|panicked" "$S/.suite.log" | head -5; fi
 echo "== demo with the patch"
 if bash "$SEED/demo.sh" >"$S/.demo1.log" 2>&1; then echo "demo(patched)=pass (unexpected: change does not manifest)"; else echo "demo(patched)=fail (as intended)"; fi
 for ID in "$@"; do
